@@ -193,7 +193,7 @@ func run(c *core.Ctx) {
 	atoms = append(atoms, descs...)
 	atoms = append(atoms, " ", " ", ",", ",", "\t", "\n", "\f", "\r", "(", ")", "%2c", "%2C", ":", "&")
 	r := c.Rng("soup")
-	for i := 0; i < c.N(60000, 2000000)/c.NShards; i++ {
+	for i := 0; i < c.N(600000, 8000000)/c.NShards; i++ {
 		var s string
 		if r.Intn(4) == 0 {
 			s = gen.Mutate(r, gen.Soup(r, atoms, r.Intn(10)), gen.URLAtoms)
